@@ -113,6 +113,7 @@ def diag_to_dict(e: Any) -> dict:
         "header": getattr(e, "header", None),
         "detail": getattr(e, "detail", None),
         "cls": type(e).__name__,
+        "data": None if getattr(e, "data", None) is None else repr(e.data)[:1500],
     }
 
 
